@@ -17,6 +17,10 @@ from .c06 import Names, c_dotted, d_dotted, _in_grandchild  # noqa: F401
 
 REQ = ["AutoImp.World", "AutoImp.Needs", "AutoImp.Wire"]
 
+ANCHORS = ["pyflyby._autoimp:symbol_needs_import", "pyflyby._autoimp:find_missing_imports",
+           "pyflyby._autoimp:ScopeStack.__init__", "pyflyby._autoimp:_MissingImportFinder._visit_Load",
+           "pyflyby._autoimp:_MissingImportFinder._check_load"]
+
 ROOTS = ["ta", "tb", "tc"]
 PARTS = ["ua", "ub", "uc"]
 KINDS = ["trip", "trip", "modsub", "miss", "prop", "mod", "plain"]
@@ -433,7 +437,8 @@ def attr_names_in(code):
 # ---------------------------------------------------------------------------------------------
 
 def run(ctx):
-    n = int(os.environ.get("VERIF_C20_N", 0)) or (700 if ctx.quick else 30000)
+    cm.check_anchors(ctx, ANCHORS)
+    n = int(os.environ.get("VERIF_C20_N", 0)) or (1400 if ctx.quick else 30000) * ctx.scale
     ctx.coverage["rule"] = ("generated namespaces (1-3 levels) holding tripwire objects (recording __getattribute__, module subclasses, "
                             "__getattr__-only, property classes, plain modules, strings) linked into attribute chains of depth 1-8, some registered "
                             "in sys.modules under the dotted path (same / different object / not at all), dotted keys in the boundary stream; per case "
